@@ -68,6 +68,20 @@ def run(ctx):
                         out[(recv[2], show(t[2][1]))] = (not v) if neg else v
         return out
 
+    def pruned_right_after(w, ufield, x):
+        """the condition assumed last in a pruned world, if the one before it is `used.<ufield>.contains(x)`: the item
+        passed the used-test and was then rejected by something else"""
+        atoms = [(k[1], v) for k, v in w.assumptions if isinstance(k, tuple) and k and k[0] == 'atom']
+        if len(atoms) < 2:
+            return None
+        t, v = atoms[-2]
+        while isinstance(t, tuple) and t[0] == 'un' and t[1] == 'Not':
+            t = t[2]
+        if isinstance(t, tuple) and t[0] == 'call' and t[1].endswith('::contains') and len(t[2]) == 2 and show(t[2][1]) == x \
+                and isinstance(t[2][0], tuple) and t[2][0][0] == 'field' and t[2][0][2] == ufield:
+            return '%s is %s' % (show(atoms[-1][0])[:80], atoms[-1][1])
+        return None
+
     def deletes(w):
         return [(show(e['args'][0]).split('.')[-1], show(e['args'][1])) for e in w.trace
                 if e['kind'] == 'call' and e['callee'].endswith('::delete')]
@@ -89,6 +103,9 @@ def run(ctx):
                         swept += 1
                     elif w.outcome == 'return':
                         why = 'an item of m.%s that is not in used.%s survives' % (coll, ufield)
+                    elif w.outcome == 'pruned' and pruned_right_after(w, ufield, x):
+                        # known to be unused, and then filtered out of the sweep by a further condition
+                        why = 'an item of m.%s that is not in used.%s is skipped by the sweep when %s' % (coll, ufield, pruned_right_after(w, ufield, x))
                 else:
                     if has:
                         why = 'an item of m.%s that is in used.%s is deleted' % (coll, ufield)
